@@ -108,7 +108,9 @@ pub const XK_COMPOSE: [(&str, &str); 8] = [
 ];
 pub const XK_REDUCE: [(&str, &str); 7] = [("が", "か"), ("ぎ", "き"), ("ば", "は"), ("ぱ", "は"), ("ヴ", "ウ"), ("\u{fb2a}", "ש"), ("ゟ", "より")];
 
-pub const XC_COMPOSE: [(&str, &str); 9] = [
+pub const XC_COMPOSE: [(&str, &str); 10] = [
+    // a composition of two separators into one (typographic dash): texts without any word change their length too
+    ("--", "\u{2014}"),
     ("a\u{308}", "ä"),
     ("o\u{308}", "ö"),
     ("u\u{308}", "ü"),
@@ -119,7 +121,21 @@ pub const XC_COMPOSE: [(&str, &str); 9] = [
     ("E\u{301}", "É"),
     ("\u{212b}", "\u{c5}"),
 ];
-pub const XR_REDUCE: [(&str, &str); 6] = [("ß", "ss"), ("ẞ", "SS"), ("é", "e"), ("É", "E"), ("ø", "oe"), ("Ø", "OE")];
+/// Besides accents and ligatures: rules whose keys are plain ASCII letters ("w" -> "v", "x" -> "ks": all-ASCII titles
+/// need normalising too) and a rule on a separator (ellipsis -> three dots).
+pub const XR_REDUCE: [(&str, &str); 11] = [
+    ("ß", "ss"),
+    ("ẞ", "SS"),
+    ("é", "e"),
+    ("É", "E"),
+    ("ø", "oe"),
+    ("Ø", "OE"),
+    ("w", "v"),
+    ("W", "V"),
+    ("x", "ks"),
+    ("X", "KS"),
+    ("\u{2026}", "..."),
+];
 
 fn lang_compose_only() -> Lang {
     let mut lang = Lang::new();
